@@ -738,7 +738,7 @@ pub fn signed_bitmessage_to_buf(
 ) -> ProtoResult<(Vec<u8>, Box<Record<TSIG>>)> {
     let mut decoder = BinDecoder::new(message);
     let Header {
-        mut metadata,
+        metadata,
         mut counts,
     } = Header::read(&mut decoder)?;
 
@@ -789,7 +789,6 @@ pub fn signed_bitmessage_to_buf(
     };
 
     let tsig = &tsig_rr.data;
-    metadata.id = tsig.oid;
 
     // Construct the TBS data.
     let mut buf = Vec::with_capacity(message.len());
@@ -801,8 +800,13 @@ pub fn signed_bitmessage_to_buf(
         encoder.emit_slice(previous_hash)?;
     }
 
-    // Emit the header we modified to remove the TSIG additional record.
-    Header { metadata, counts }.emit(&mut encoder)?;
+    // Emit the header as it was received, so that every header bit is authenticated, with
+    // the original ID restored and the TSIG record removed from the additional count.
+    let mut header = [0u8; 12];
+    header.copy_from_slice(&message[..start_data]);
+    header[..2].copy_from_slice(&tsig.oid.to_be_bytes());
+    header[10..].copy_from_slice(&counts.additionals.to_be_bytes());
+    encoder.emit_slice(&header)?;
 
     // Emit all the message data between the header and the TSIG record.
     encoder.emit_slice(&message[start_data..end_data])?;
